@@ -1159,11 +1159,14 @@ class ExchangeInstruction(Instruction):
     def lift_single_exchange(self, il: LowLevelILFunction, addr: int) -> None:
         first, second = self.operands()
         assert isinstance(first, HasWidth), f"Expected HasWidth, got {type(first)}"
+        # Use the same PRE addressing modes as render() so the operands shown
+        # are the locations exchanged.
+        dst_mode, src_mode = self._addressing_modes()
         width = first.width()
         tmp = TempReg(TempExchange, width=width)
-        tmp.lift_assign(il, first.lift(il))
-        first.lift_assign(il, second.lift(il))
-        second.lift_assign(il, tmp.lift(il))
+        tmp.lift_assign(il, first.lift(il, dst_mode))
+        first.lift_assign(il, second.lift(il, src_mode), dst_mode)
+        second.lift_assign(il, tmp.lift(il), src_mode)
 
     def encode(self, encoder: Encoder, addr: int) -> None:
         op1, op2 = self.operands()
